@@ -14,11 +14,14 @@ pub fn run(ctx: &mut Ctx) {
         vec![], vec!["0"], vec!["5"], vec!["18446744073709551615"], vec!["18446744073709551616"], vec!["+5"], vec!["-5"],
         vec!["0005"], vec!["abc"], vec![""], vec!["5", "5"], vec!["5", "6"], vec!["5, 5"], vec!["5 5"], vec!["0x10"],
         vec!["99999999999999999999999999"], vec!["0", "0"], vec!["5", "x"], vec!["1", "2", "3"], vec!["\u{b}5"],
+        // bytes that other notions of "whitespace" strip: FF, VT, NUL, FS..US, DEL at either end of the value
+        vec!["\u{c}5"], vec!["5\u{c}"], vec!["5\u{b}"], vec!["\u{0}5"], vec!["\u{1c}5"], vec!["5\u{1f}"], vec!["5\u{7f}"],
     ];
     let tes: Vec<Vec<&str>> = vec![
         vec![], vec!["chunked"], vec!["gzip"], vec!["gzip, chunked"], vec!["chunked, gzip"], vec!["identity"],
         vec!["chunked", "chunked"], vec!["Chunked"], vec!["gzip,chunked,x"], vec![" , chunked ,"], vec![""], vec!["gzip", "chunked"],
         vec!["chunked\u{c}"], vec!["gzip,gzip"], vec!["chunked;q=1"],
+        vec!["\u{c}chunked"], vec!["chunked\u{b}"], vec!["\u{1f}gzip"],
     ];
     let expects: Vec<Vec<&str>> = vec![vec![], vec!["100-continue"], vec!["100-Continue"], vec!["100-continue", "100-continue"]];
     let ctypes: Vec<Vec<&str>> = vec![
